@@ -594,6 +594,10 @@ func runC12(c *an.Ctx, p *an.Prog, thorough bool) {
 				return
 			}
 			for _, e := range dc.S.Events {
+				if e.Kind == "call" && e.Fn != nil && an.FnPkgPath(e.Fn) == storePkg && (e.Fn.Name() == "UpdateUser" || e.Fn.Name() == "Update" || e.Fn.Name() == "AddUser") {
+					n++
+					bad = append(bad, "update case writes through "+fnKey(e.Fn)+" directly instead of s.update (policy would be bypassed)")
+				}
 				if e.Kind == "call" && e.Fn != nil && an.FnPkgPath(e.Fn) == mainPkg && e.Fn.Signature.Recv() != nil && isNamed(e.Fn.Signature.Recv().Type(), mainPkg, "store") {
 					reach := p.Reach([]*ssa.Function{e.Fn}, an.ReachOpts{OnlyRepo: true})
 					for f := range reach {
